@@ -2,6 +2,8 @@
 from ..facts import callee, op_const, op_place
 from .common import *
 from . import tables
+from . import tables as tables_mod
+from .tables import TOKEN_TYPE
 
 
 def r20b(ctx, rep):
@@ -69,8 +71,111 @@ def r20b(ctx, rep):
                                      [fn.span])
 
 
+def r20c(ctx, rep, rule="R20c"):
+    """classification tables of the nesting counter, recovered by enum-constant propagation"""
+    from ..enumconst import EnumConst, Budget
+    facts = ctx["facts"]
+    rep.rule(rule, "the nesting counter classifies tokens the same way in both directions: find_matching_bracket touches token "
+             "types only through match and ==, so for each token type at the cursor and each token type met while scanning "
+             "the path through its body is determined. Recovered tables: which types start a forward scan (openers) / a "
+             "backward scan (closers), and per direction which types bump the nesting count and which are tested as a "
+             "partner. Required: forward — bump = openers, partner = closers; backward — bump = closers, partner = openers; "
+             "and the openers are exactly the parser's opener types. A type that opens a scan but is not counted when met "
+             "inside one (e.g. a nested #( ) pairs the outer bracket with the wrong closer.")
+    f = need(rep, rule, facts, "marwood::syntax::find_matching_bracket")
+    if f is None or TOKEN_TYPE not in facts.adts:
+        return
+    ec = EnumConst(facts, f, TOKEN_TYPE, "token_type")
+    heads = sorted({h for src, h in f.back_edges()})
+    if len(heads) != 1:
+        rep.fail(rule, "%s|shape" % rule, "find_matching_bracket has %d loops; the table recovery expects the single scanning loop" % len(heads), [f.span])
+        return
+    head = heads[0]
+    body = set()
+    for src, h in f.back_edges():
+        body |= (f.reach_from(h) & f.reach_back(src)) | {h, src}
+    # the counter: a local incremented by a constant inside the loop
+    counters = set()
+    for bb in body:
+        for st in f.blocks[bb]["stmts"]:
+            rv = st["rv"]
+            if rv["k"] == "bin" and rv["op"] in ("AddWithOverflow", "Add") and op_const(rv["b"]) is not None and op_place(rv["a"]) is not None:
+                counters.add(op_place(rv["a"])["l"])
+    if len(counters) != 1:
+        rep.fail(rule, "%s|shape" % rule, "could not identify the nesting counter of find_matching_bracket (%d candidates)" % len(counters), [f.span])
+        return
+    ctr = list(counters)[0]
+    bump_blocks = {bb for bb in body for st in f.blocks[bb]["stmts"] if st["rv"]["k"] == "bin" and st["rv"]["op"] in ("AddWithOverflow", "Add")
+                   and op_place(st["rv"]["a"]) is not None and op_place(st["rv"]["a"])["l"] == ctr}
+    def _is_ctr(op):
+        o = f.origin(op)
+        return o[0] == "local" and o[1] == ctr and not o[2]
+    partner_blocks = {bb for bb in body for st in f.blocks[bb]["stmts"] if st["rv"]["k"] == "bin" and st["rv"]["op"] in ("Eq", "Ne", "SubWithOverflow", "Sub", "Gt", "Lt")
+                      and _is_ctr(st["rv"]["a"])}
+    try:
+        dispatch = {}
+        for d in ec.variants:
+            vis, calls, exits, _ = ec.explore(0, {}, d, stops=[head])
+            stops = [e for e in exits if e[0] == "stop"]
+            if not stops:
+                continue
+            direction = "backward" if any(c.endswith("Iterator::rev") or c.endswith("::rev") for c in calls) else "forward"
+            dispatch[d] = (direction, [dict(e[2]) for e in stops])
+        tables = {}
+        for d, (direction, envs) in dispatch.items():
+            for env in envs:
+                for v in ec.variants:
+                    vis, calls, exits, _ = ec.explore(head, env, v, stops=[head])
+                    t = tables.setdefault(direction, {"bump": set(), "partner": set()})
+                    if vis & bump_blocks:
+                        t["bump"].add(v)
+                    if vis & partner_blocks:
+                        t["partner"].add(v)
+    except Budget:
+        rep.fail(rule, "%s|shape" % rule, "state budget exceeded while following find_matching_bracket per token type", [f.span])
+        return
+    openers = {d for d, (dr, _) in dispatch.items() if dr == "forward"}
+    closers = {d for d, (dr, _) in dispatch.items() if dr == "backward"}
+    rep.floor(rule, "token types that start a scan", len(dispatch), 3)
+
+    def show(x):
+        return "{" + ", ".join(sorted(x)) + "}"
+    want = {("forward", "bump"): openers, ("forward", "partner"): closers, ("backward", "bump"): closers, ("backward", "partner"): openers}
+    for (dr, what), expect in sorted(want.items()):
+        got = tables.get(dr, {}).get(what, set())
+        key = "%s|%s|%s" % (rule, dr, what)
+        if got == expect:
+            rep.ok(rule, key, "%s scan: %s set is %s" % (dr, what, show(got)), [f.span])
+        else:
+            rep.fail(rule, key, "%s scan: the token types that %s are %s but the types that %s a scan are %s: %s" % (
+                dr, "bump the nesting count" if what == "bump" else "are tested as the partner", show(got),
+                "start" if (dr, what) in (("forward", "bump"), ("backward", "partner")) else "end",
+                show(expect), "a bracket of a missing type is not counted when it is met inside a scan, so the outer bracket is "
+                "paired with the wrong partner" if what == "bump" else "a partner of a missing type is never found"), [f.span])
+    # agreement with the parser's own opener set (as R20a derives it)
+    parse = facts.fns.get("marwood::parse::parse")
+    if parse is not None:
+        sws = disc_switches(facts, parse, TOKEN_TYPE)
+        p_open = set()
+        if sws:
+            for v, tg in sws[0]["arms"].items():
+                calls, _ = tables_mod.arm_effects(parse, tg, stop={sws[0]["otherwise"]}, limit=3)
+                for c in calls[:1]:
+                    g = facts.fn(c)
+                    if g is not None and g.path != parse.path:
+                        for sw in disc_switches(facts, g, TOKEN_TYPE):
+                            if "RightParen" in sw["arms"]:
+                                p_open.add(v)
+        if p_open:
+            (rep.ok if p_open == openers else rep.fail)(
+                rule, "%s|openers-vs-parser" % rule,
+                "the types that start a forward scan %s are the parser's opener types" % show(openers) if p_open == openers else
+                "the types that start a forward scan are %s but the parser opens a bracketed datum on %s" % (show(openers), show(p_open)), [f.span])
+
+
 def run(ctx, rep):
     tables.r20a(ctx, rep)
     r20b(ctx, rep)
-    rep.not_decided += ["that the partner found is the properly nested one (value-level)",
+    r20c(ctx, rep)
+    rep.not_decided += ["the counter arithmetic (that the count is zero exactly at the properly nested partner) and the byte-indexed cursor lookup (value-level)",
                         "panic-freedom of highlight/highlight_check (C06's inventory covers their bodies)"]
